@@ -157,3 +157,45 @@ Proof.
     by (apply map_ext; intros; lra).
   rewrite dot_scal_r, H. unfold Rdiv. lra.
 Qed.
+
+(* ---- every reachable iterate: any number of relaxed updates, any proposals, any governor factors in (0, 1) ---- *)
+Definition run_iterates (N0 : list R) (steps : list (R * list R)) : list R :=
+  fold_left (fun Ni st => relaxed RNum (relax_factor RNum (fst st) Ni (snd st)) Ni (snd st)) steps N0.
+
+Lemma run_iterates_positive (steps : list (R * list R)) : forall N0,
+  Forall (fun x => 0 < x) N0 ->
+  Forall (fun st => 0 < fst st < 1 /\ List.length (snd st) = List.length N0) steps ->
+  Forall (fun x => 0 < x) (run_iterates N0 steps) /\ List.length (run_iterates N0 steps) = List.length N0.
+Proof.
+  induction steps as [|[g Nn] steps IH]; intros N0 Hpos Hst; cbn [run_iterates fold_left]; [split; [exact Hpos | reflexivity]|].
+  inversion Hst as [|st l [Hg Hl] Hrest]; subst. cbn [fst snd] in *.
+  assert (Hp1 := iterates_positive g N0 Nn Hg Hpos (eq_sym Hl)).
+  assert (Hl1 : List.length (relaxed RNum (relax_factor RNum g N0 Nn) N0 Nn) = List.length N0)
+    by (rewrite relaxed_R; apply map2_length; now symmetry).
+  fold (run_iterates (relaxed RNum (relax_factor RNum g N0 Nn) N0 Nn) steps).
+  destruct (IH _ Hp1) as [A B].
+  - eapply Forall_impl; [|exact Hrest]. intros st [H1 H2]. split; [exact H1 | now rewrite Hl1].
+  - split; [exact A | now rewrite B].
+Qed.
+
+(* along any run whose proposals satisfy a constraint row, the residual of that row is the initial one times a factor in [0, 1):
+   it never grows, never changes sign, and is exactly zero from the first full step (r = 1) on *)
+Lemma run_residual_contracts (c : list R) (bk : R) (steps : list (R * list R)) : forall N0,
+  Forall (fun x => 0 < x) N0 -> List.length c = List.length N0 ->
+  Forall (fun st => 0 < fst st < 1 /\ List.length (snd st) = List.length N0 /\ dotR c (snd st) = bk) steps ->
+  exists rho, 0 <= rho <= 1 /\ dotR c (run_iterates N0 steps) - bk = rho * (dotR c N0 - bk).
+Proof.
+  induction steps as [|[g Nn] steps IH]; intros N0 Hpos Hc Hst; cbn [run_iterates fold_left].
+  - exists 1. split; [lra | ring].
+  - assert (Hhd := Forall_inv Hst). assert (Hrest := Forall_inv_tail Hst). cbn [fst snd] in Hhd. destruct Hhd as [Hg [Hl Hb]].
+    set (r := relax_factor RNum g N0 Nn). set (N1 := relaxed RNum r N0 Nn).
+    assert (Hr : 0 < r <= 1) by (apply (relax_factor_bounds g N0 Nn (proj1 Hg) Hpos (eq_sym Hl))).
+    assert (Hp1 : Forall (fun x => 0 < x) N1) by (apply iterates_positive; [exact Hg | exact Hpos | now symmetry]).
+    assert (Hl1 : List.length N1 = List.length N0) by (unfold N1; rewrite relaxed_R; apply map2_length; now symmetry).
+    change (exists rho, 0 <= rho <= 1 /\ dotR c (run_iterates N1 steps) - bk = rho * (dotR c N0 - bk)).
+    destruct (IH N1 Hp1) as [rho [Hrho E]].
+    + now rewrite Hl1.
+    + eapply Forall_impl; [|exact Hrest]. intros st [H1 [H2 H3]]. split; [exact H1 | split; [now rewrite Hl1 | exact H3]].
+    + exists (rho * (1 - r)). split; [nra|].
+      rewrite E. unfold N1. rewrite (relax_contracts_residual c N0 Nn bk r Hc (eq_sym Hl) Hb). ring.
+Qed.
